@@ -26,7 +26,7 @@ CONFIG = {
 }
 
 OBJ_KINDS = ['makespan', 'flowtime', 'priorities', 'start_latest', 'greatest_start', 'indicator_min', 'indicator_max',
-             'bounded_min', 'multi']
+             'bounded_min', 'bounded_max', 'bounded_max', 'multi']
 
 
 # ----------------------------------------------------------------------------------------------
@@ -77,12 +77,16 @@ def gen_case(r, mode):
         case['cfg'] = dict(max_iter=r.choice([None, None, None, 1, 2, 3, 0]), optimizer='incremental')
         case['history'] = [('solve',)]
     elif mode == 'enumerate':
+        if r.random() < 0.3:
+            # enumeration after an optimisation (the bounds of the optimiser must not survive it)
+            case['objs'] = [r.choice(['bounded_max', 'bounded_max', 'makespan', 'flowtime'])]
+            case['cfg'] = dict(max_iter=r.choice([None, None, 2]), optimizer='incremental')
         case['history'] = [('solve',)] + [r.choice([('find_another',)] * 5 + [('find_another_var', r.randint(0, 3))])
                                           for _ in range(r.choice([3, 6, 40, 40]))]
     else:
         if r.random() < 0.6:
             case['objs'] = [r.choice(OBJ_KINDS)]
-            case['cfg'] = dict(max_iter=r.choice([None, None, 2]), optimizer=r.choice(['incremental', 'incremental', 'optimize']))
+            case['cfg'] = dict(max_iter=r.choice([None, None, 1, 2, 3]), optimizer=r.choice(['incremental', 'incremental', 'incremental', 'optimize']))
         opsl = [('solve',), ('solve',), ('solve',), ('find_another',), ('find_another',), ('find_another_var', 0), ('initialize',), ('export',)]
         case['history'] = [r.choice(opsl) for _ in range(r.randint(2, 6))]
     return case
@@ -113,6 +117,13 @@ def add_objectives(ps, im, kinds, r):
                 ps.ObjectiveMaximizeIndicator(target=ind, weight=1)
             else:
                 ps.ObjectiveMinimizeIndicator(target=ind, weight=1)
+        elif k == 'bounded_max':
+            # the declared upper bound is a true bound and is attainable: the loop stops on it (bound stop)
+            import z3
+            b = r.choice([1, 2, 3])
+            t = tasks[0]
+            ind = ps.IndicatorFromMathExpression(name='CappedStart', expression=z3.If(t._start > b, b, t._start), bounds=(0, b))
+            ps.ObjectiveMaximizeIndicator(target=ind, weight=1)
         elif k == 'multi':
             ps.ObjectiveMinimizeMakespan()
             ps.ObjectiveMinimizeFlowtime()
